@@ -309,6 +309,7 @@ def run(ctx, prog, res):
     rule_r15(ctx, prog, res)
     rule_r16(prog, res)
     rule_r17(ctx, prog, res)
+    rule_r18(prog, res)
 
 
 def _or_roots(f, op, names, depth=0):
@@ -800,3 +801,26 @@ def rule_r17(ctx, prog, res):
         b = bad.get(nm)
         r17.check(b is None, {"fn": nm, "evaluations": n // 2}, "C01.R17:%s" % nm, "" if b is None else "%s%r = %r, expected %r: a dated selector is moved to another day (e.g. the 1899 occurrence of `Jun 15` onto 1900-01-01)" % (nm, b[0], b[1], b[2]), lib.where_of(fns[nm]))
     r17.floor(2)
+
+
+def rule_r18(prog, res):
+    r18 = res.rule("C01.R18", "a year is not a number of days: no duration of 365 or 366 days (or 52 / 53 weeks) is built in the evaluation code - a bound moved `one year on` by a day count lands a day early after a Feb 29 (dates move by calendar: with_year, from_ymd_opt, checked_add_months)")
+    n = 0
+    for fid, fn in sorted(prog.fns.items()):
+        if fn.crate not in lib.WS_LIBS or fn.from_expansion:
+            continue
+        for bb, t in fn.calls():
+            nm = flow.call_name(t) or ""
+            if not re.search(r"TimeDelta::(try_)?(days|weeks|hours)$|Duration::(try_)?(days|weeks|hours)$|Days::new$", nm):
+                continue
+            n += 1
+            a = t["args"][0] if t["args"] else None
+            v = a.get("int") if a is not None and a.get("k") == "const" else None
+            if v is None and a is not None:
+                cs = [c.get("int") for c in flow.origin_consts(fn, a) if isinstance(c.get("int"), int)]
+                v = cs[0] if len(cs) == 1 else None
+            unit = nm.split("::")[-1].replace("try_", "")
+            yearish = (unit in ("days", "new") and v in (365, 366)) or (unit == "weeks" and v in (52, 53)) or (unit == "hours" and v in (8760, 8784))
+            r18.check(not yearish, {"fn": fid.split("::")[-1], "duration": "%s(%s)" % (unit, v if v is not None else "variable")}, "C01.R18:%s:%s" % (fn.module, fid.split("::")[-1].split("{")[0] or "closure"),
+                      "%s builds a duration of %s %s to move a date by a year: after a Feb 29 the result is a day early (`2019 Sep 01-Jul 01` ends on 2020-06-30)" % (fid, v, unit), lib.where_of(fn, t))
+    r18.floor(5)
